@@ -376,7 +376,7 @@ def report_sanitizer(run, info, calls):
 # main
 # --------------------------------------------------------------------------
 
-def large_distribute(run, rng, cap, shim_of):
+def large_distribute(run, rng, cap, shim_of, need_atoms=144):
     """One supercell with more than 128 (and more than any size threshold found in the pragma inventory's `if` clauses)
     atoms, full layout, force constants distributed through the public path; bitwise across thread counts and builds.
     The kernel call is captured, so it also goes through the replay / footprint / sanitizer machinery."""
@@ -384,6 +384,8 @@ def large_distribute(run, rng, cap, shim_of):
 
     name, sm = rng.choice([("mono_P", [4, 4, 5]), ("triclinic", [4, 4, 3]), ("mono_P", [5, 4, 4])])
     cell, _ = gen.make_cell(name)
+    while len(cell) * sm[0] * sm[1] * sm[2] < need_atoms:
+        sm[rng.randint(0, 2)] += 1
     out = {}
     for label, variant, t in (("omp-4", "omp", 4), ("omp-1", "omp", 1), ("omp-8", "omp", 8), ("omp-3", "omp", 3), ("ser", "ser", 1)):
         shim = shim_of(variant)
@@ -406,6 +408,168 @@ def large_distribute(run, rng, cap, shim_of):
     shim_of("omp")
     U.set_threads(4)
     return n
+
+
+def large_smallest_vectors(run, rng, shim_of, need_pairs):
+    """ShortestPairs (dense and sparse kernels) on more atom pairs than any `if` threshold of the inventory (and a small
+    call below it), 1/4/8 threads and the serial build, bitwise; a sample of pairs against a brute-force search."""
+    from phonopy.structure.cells import ShortestPairs
+
+    r = np.random.RandomState(rng.randint(0, 10**9))
+    lat = np.array([[21.0, 0.7, 0.0], [2.1, 19.0, 0.3], [0.0, 3.3, 24.0]])
+    for n in (int(np.ceil(np.sqrt(need_pairs))) + 1, 40):
+        half = np.array([[a, b, c] for a in (0, 0.5) for b in (0, 0.5) for c in (0, 0.5)], dtype=float)
+        pos = np.vstack([half, r.uniform(0, 1, size=(n - 8, 3))])
+        out = {}
+        for label, variant, t in (("omp-1", "omp", 1), ("omp-4", "omp", 4), ("omp-8", "omp", 8), ("omp-8b", "omp", 8), ("ser", "ser", 1)):
+            shim_of(variant)
+            U.set_threads(t)
+            res = []
+            for dense in (True, False):
+                sp = ShortestPairs(lat, pos, pos, store_dense_svecs=dense)
+                res += [np.array(sp.shortest_vectors), np.array(sp.multiplicities)]
+            out[label] = res
+            run.count("large smallest-vectors runs (%d pairs)" % (n * n), section="oracle")
+        info = dict(lattice=lat.tolist(), n_positions=n, pairs=n * n, positions_seeded="8 half-grid points + uniform random")
+        for label, res in out.items():
+            if _hash(res) != _hash(out["omp-1"]):
+                run.violation("ShortestPairs", "thread-count-dependent" if label != "ser" else "build-dependent",
+                              "shortest vectors / multiplicities for %d atom pairs differ bitwise between 1 OpenMP thread and %s" % (n * n, label), dict(info, config=label))
+        # reference on a sample (ties at the half-grid points included): dense and sparse must describe the minimum images
+        import itertools
+        sv, mu, svs, mus = out["omp-4"]
+        shifts = np.array(list(itertools.product((-2, -1, 0, 1, 2), repeat=3)), dtype=float)
+        for (i, j) in [(i_, j_) for i_ in range(8) for j_ in range(8)][:24] + [(r.randint(n), r.randint(n)) for _ in range(40)]:
+            d = (pos[i] - pos[j])[None, :] + shifts
+            ln = np.sqrt(((d @ lat) ** 2).sum(axis=1))
+            keep = d[ln - ln.min() < 1e-5]
+            m, adrs = mu[i, j]
+            got_d = sv[adrs:adrs + m]
+            got_s = svs[i, j, :mus[i, j]]
+            ok = m == len(keep) == mus[i, j] and all(np.abs(keep - v).sum(axis=1).min() < 1e-8 for v in got_d) and all(np.abs(keep - v).sum(axis=1).min() < 1e-8 for v in got_s)
+            run.count("smallest-vectors brute-force samples", section="oracle")
+            if not ok:
+                run.violation("ShortestPairs", "not-minimum-images", "stored shortest vectors of a pair are not the set of minimum images (pair %d,%d of %d positions)" % (i, j, n), dict(info, pair=[int(i), int(j)]))
+                break
+    shim_of("omp")
+    U.set_threads(4)
+
+
+def tie_and_boundary_probes(run, rng, thorough):
+    """Boundary-value inputs for the kernels that contain comparisons: tetrahedron weights at exact ties (omega equal to a
+    vertex value, 2/3/4 equal vertices, flat bands, below/above all), DOS kernel on integer-valued bands, thermal
+    properties with the cutoff exactly at a frequency and T = 0."""
+    from phonopy.structure import tetrahedron_method as TM
+
+    tc = TM.TetrahedronMethod(None)            # C, main diagonal 0
+    tp = TM.TetrahedronMethod(None, lang="Py")
+    rga_c, rga_p = np.array(tc.tetrahedra), np.array(tp.tetrahedra)
+    verts = sorted({tuple(int(x) for x in v) for v in rga_c.reshape(-1, 3)})
+
+    def fields():
+        yield "flat", {v: 2.0 for v in verts}
+        for k in range(6 if thorough else 3):
+            yield "integer-valued", {v: float(rng.randint(0, 3)) for v in verts}
+        for k in range(4 if thorough else 2):
+            lo = float(rng.randint(0, 2))
+            yield "degenerate-minimum", {v: (lo if rng.random() < 0.7 else lo + rng.randint(1, 3)) for v in verts}
+        yield "generic", {v: rng.uniform(0, 3) for v in verts}
+
+    n_tie = 0
+    for kind, f in fields():
+        tet_c = np.array([[f[tuple(int(x) for x in rga_c[a][b])] for b in range(4)] for a in range(24)])
+        tet_p = np.array([[f[tuple(int(x) for x in rga_p[a][b])] for b in range(4)] for a in range(24)])
+        vals = sorted(set(f.values()))
+        oms = sorted(set(vals + [vals[0] - 1.0, vals[-1] + 1.0] + [(a + b) / 2 for a, b in zip(vals, vals[1:])]))
+        for value in ("I", "J"):
+            tc.set_tetrahedra_omegas(tet_c)
+            tp.set_tetrahedra_omegas(tet_p)
+            tc.run(np.array(oms), value=value)
+            c_arr = np.array(tc.get_integration_weight())
+            with np.errstate(all="ignore"):
+                tp.run(np.array(oms), value=value)
+            p_arr = np.array(tp.get_integration_weight())
+            c_sc = []
+            for w in oms:
+                tc.run(float(w), value=value)
+                c_sc.append(tc.get_integration_weight())
+            c_sc = np.array(c_sc)
+            for i_, w in enumerate(oms):
+                n_tie += w in vals
+                run.count("tetrahedron exact-tie / boundary comparisons", section="oracle")
+                run.case(("thm-tie", kind, value, w, tet_c.tobytes()), nontrivial=w in vals)
+                if not np.isfinite(p_arr[i_]):
+                    run.count("tetrahedron reference not finite (skipped)", section="oracle")
+                    continue
+                if abs(c_arr[i_] - p_arr[i_]) > 1e-9 * max(1.0, abs(p_arr[i_])) or c_sc[i_] != c_arr[i_]:
+                    run.violation("TetrahedronMethod.run", "thm-C-vs-Py-exact-tie" if w in vals else "thm-C-vs-Py",
+                                  "%s weight at omega = %r (%s field, omega %s a vertex value): C %r (scalar entry %r), Python reference %r" % (
+                                      value, w, kind, "equal to" if w in vals else "not", float(c_arr[i_]), float(c_sc[i_]), float(p_arr[i_])),
+                                  dict(kind=kind, function=value, omega=w, tetrahedra_omegas_C_order=tet_c.tolist()))
+                    break
+    run.cov["oracle"]["tetrahedron comparisons with omega exactly at a vertex value"] = n_tie
+
+    # ---- DOS kernel on integer-valued (tie-heavy) and flat bands, frequency points on the band values
+    import phonopy._phonopy as phonoc
+    from phonopy.structure.grid_points import GridPoints
+    for mesh in ([1, 1, 1], [2, 2, 2], [2, 1, 2]):
+        gp = GridPoints(np.array(mesh), np.eye(3), is_mesh_symmetry=False)
+        ga = np.array(gp.grid_address, dtype="int64")
+        gmt = np.array(gp.grid_mapping_table, dtype="int64")
+        nir, nb = len(ga), 2
+        for kind in ("flat", "integer-valued"):
+            freqs = np.full((nir, nb), 1.0) if kind == "flat" else np.array([[float(rng.randint(0, 2)) for _ in range(nb)] for _ in range(nir)])
+            fpts = np.array([-0.5, 0.0, 0.5, 1.0, 1.5, 2.0, 2.5])
+            coef = np.ones((nir, 1, nb))
+            dos = np.zeros((nir, nb, len(fpts), 1))
+            args = [dos, np.array(mesh, dtype="int64"), fpts, freqs, coef, ga, gmt, np.array(rga_c, dtype="int64")]
+            phonoc.tetrahedron_method_dos(*args)
+            central = [int(np.nonzero((np.array(t) == 0).all(axis=1))[0][0]) for t in rga_c]
+            tpx = TM.TetrahedronMethod(None, lang="Py")
+            tpx._relative_grid_addresses, tpx._central_indices = np.array(rga_c), central
+
+            def iwf(w, tet, tpx=tpx):
+                tpx.set_tetrahedra_omegas(tet)
+                with np.errstate(all="ignore"):
+                    tpx.run(w, value="I")
+                return tpx.get_integration_weight()
+            refd = ref.tetrahedron_method_dos([np.zeros_like(dos)] + args[1:], iwf)[0]
+            run.count("tetrahedron DOS tie comparisons", section="oracle")
+            run.case(("dos-tie", tuple(mesh), kind, freqs.tobytes()), nontrivial=True)
+            fin = np.isfinite(refd)
+            if not np.allclose(dos[fin], refd[fin], rtol=0, atol=1e-9 * max(1.0, float(np.abs(refd[fin]).max()) if fin.any() else 1.0)):
+                run.violation("phonopy._phonopy.tetrahedron_method_dos", "dos-C-vs-Py-exact-tie",
+                              "DOS weights on %s bands with frequency points on the band values differ from the Python reference (max %.3g)" % (kind, float(np.abs(dos[fin] - refd[fin]).max())),
+                              dict(mesh=mesh, kind=kind, frequencies=freqs.tolist(), frequency_points=fpts.tolist()))
+
+    # ---- thermal properties: cutoff exactly at a frequency, T = 0 included
+    temps = np.array([0.0, 10.0, 300.0])
+    fr = np.array([[0.0, 1.0, 2.0], [1.0, 3.0, 3.0]]) * 0.004
+    wts = np.array([1, 2], dtype="int64")
+    for cutoff in (0.0, 0.004, 0.008, 0.012):
+        for classical in (0, 1):
+            props = np.zeros((len(temps), 3))
+            phonoc.thermal_properties(props, temps, fr, wts, cutoff, classical)
+            KB = 8.6173382568083159e-05
+            want = np.zeros_like(props)
+            for i in range(fr.shape[0]):
+                for j, T in enumerate(temps):
+                    for f in fr[i]:
+                        if T > 0 and f > cutoff:
+                            x = f / (KB * T)
+                            if classical:
+                                fe, en, cv = KB * T * np.log(x), KB - KB * np.log(x), KB
+                            else:
+                                fe = KB * T * np.log(-np.expm1(-x)) if x > 1e-12 else KB * T * np.log(x)
+                                en = x * KB / np.expm1(x) - KB * np.log(-np.expm1(-x))
+                                cv = KB * x * x * np.exp(-x) / np.expm1(-x) ** 2
+                            want[j] += np.array([fe, en, cv]) * wts[i]
+            run.count("thermal cutoff-boundary comparisons", section="oracle")
+            run.case(("thermal-cutoff", cutoff, classical), nontrivial=True)
+            if not np.allclose(props, want, rtol=1e-9, atol=1e-12):
+                run.violation("phonopy._phonopy.thermal_properties", "thermal-cutoff-boundary",
+                              "thermal properties with cutoff %.3g eV (exactly at a mode energy: modes with f == cutoff are excluded, T = 0 contributes nothing) differ from the closed forms by %.3g" % (cutoff, float(np.abs(props - want).max())),
+                              dict(cutoff=cutoff, classical=classical, frequencies_eV=fr.tolist(), temperatures=temps.tolist()))
 
 
 def nac_lowsym_probes(run, rng, thorough):
@@ -510,8 +674,7 @@ def main(run):
         run.count("omp_max_threads probes", section="oracle")
         if got != t:
             run.broke("harness", "omp_set_num_threads(%d) not seen by the OpenMP library (omp_max_threads()=%d)" % (t, got))
-    if int(lib_ser.call("omp_max_threads")) != 0:
-        run.violation("phonopy._phonopy.omp_max_threads", "serial-build-reports-threads", "serial build reports a thread count", {})
+    run.cov["oracle"]["serial build omp_max_threads()"] = int(lib_ser.call("omp_max_threads"))   # observation only
     U.set_threads(4)
 
     # ---------------- (a) pragma inventory
@@ -526,8 +689,7 @@ def main(run):
         if not r.get("private_complete"):
             run.broke("correspondence", "private clause incomplete at %s:%d (%s): body assigns %s, private %s" % (
                 r["file"], r["line"], r["function"], r.get("body_assigns_locals"), r["private"]))
-            run.violation("c/%s" % r["function"], "omp-private-missing", "function-scope local assigned in a parallel loop body is not private",
-                          dict(file=r["file"], line=r["line"], assigns=r.get("body_assigns_locals"), private=r["private"]))
+            # a statement about the source text: the thread sweeps below are the search for a failing input
 
     # ---------------- scenarios under capture
     nscen = 24 if thorough else 2
@@ -566,18 +728,26 @@ def main(run):
     # ---- kernels with size-dependent behaviour: one supercell beyond every threshold, through the public path
     thresholds = []
     for r in inv:
-        for m_ in re.finditer(r"(\w+)\s*(>=|>|<=|<)\s*(\d+)", r.get("if") or ""):
-            thresholds.append(dict(function=r["function"], var=m_.group(1), op=m_.group(2), value=int(m_.group(3))))
+        for m_ in re.finditer(r"(>=|>|<=|<)\s*(\d+)", r.get("if_resolved") or ""):
+            thresholds.append(dict(function=r["function"], condition=r["if_resolved"], op=m_.group(1), value=int(m_.group(2))))
     run.cov["correspondence"]["pragma_if_size_thresholds"] = thresholds
 
     def shim_of(variant):
         return U.switch_build(variant)
 
-    nbig = large_distribute(run, rng, cap, shim_of)
+    # sizes on the far side of every threshold (distribute_fc2: listed atoms; smallest vectors: atom pairs)
+    need_atoms = max([128] + [t["value"] for t in thresholds if "distribute" in (t["function"] or "")]) + 16
+    need_pairs = max([20000] + [t["value"] for t in thresholds if "smallest_vectors" in (t["function"] or "")]) + 1000
+    for t in thresholds:
+        fn = t["function"] or ""
+        if not ("distribute" in fn or "smallest_vectors" in fn):
+            run.broke("correspondence", "a pragma `if` clause with a size threshold (%s) in %s has no scenario built on both sides of it" % (t["condition"], fn), t)
+    if need_atoms > 400 or need_pairs > 250000:
+        run.broke("correspondence", "size thresholds of the pragma inventory are too large for a scenario beyond them", thresholds)
+    nbig = large_distribute(run, rng, cap, shim_of, need_atoms)
+    large_smallest_vectors(run, rng, shim_of, need_pairs)
     shim_omp = common._STATE["shim"]
-    for th in thresholds:
-        if th["value"] >= nbig:
-            run.broke("correspondence", "a pragma `if` clause has a size threshold (%s %s %d) that no scenario exceeds" % (th["var"], th["op"], th["value"]), th)
+    tie_and_boundary_probes(run, rng, thorough)
     # ---- NAC kernels with non-symmetric Born tensors (captured as well)
     shim_omp.trace = cap
     nac_lowsym_probes(run, rng, thorough)
@@ -668,8 +838,8 @@ def main(run):
             for k, (sp, a) in enumerate(zip(spec, args)):
                 if sp[0] == "a":
                     if not isinstance(a, np.ndarray) or sp[1] is None or str(a.dtype) not in U.CTYPE_DTYPES[sp[1]] or not a.flags.c_contiguous:
-                        run.violation("phonopy._phonopy.%s" % name, "dtype-mismatch",
-                                      "argument %d (%s) is %s but the glue casts it to %s*" % (k, sp[2], getattr(a, "dtype", type(a)), sp[1]), info)
+                        # representation-level condition: the value / sanitizer / reference comparisons decide whether it matters
+                        run.broke("correspondence", "%s: argument %d (%s) is %s but the glue casts it to %s*" % (name, k, sp[2], getattr(a, "dtype", type(a)), sp[1]), info)
         # runs: pattern 0 for every thread count / build / repeat, pattern 1 once
         U.set_threads(4)
         r0 = U.replay(shim_omp, name, args, 0)
@@ -871,7 +1041,6 @@ def main(run):
             parts = ans.split()
             if ans == "bad-op" or parts[1] != "true":
                 run.broke("correspondence", "model: accesses of a heap temporary exceed its allocated size on the implementation's tables", dict(info=info, answer=ans[:120]))
-                run.violation("phonopy._phonopy.%s" % k, "temporary-out-of-bounds", "index tables passed by the Python layer make the kernel index a heap temporary out of bounds (model)", info)
             continue
         if name == "loop":
             run.count("loop-bruteforce", section="correspondence")
@@ -890,7 +1059,6 @@ def main(run):
         extra = changed - model
         if extra:
             run.broke("correspondence", "%s arg %d: %d cells changed outside the model's write set (first %s)" % (name, k, len(extra), sorted(extra)[:5]), info)
-            run.violation("phonopy._phonopy.%s" % name, "writes-outside-model-footprint", "cells outside the modelled write set were changed", dict(cells=sorted(extra)[:20], **info))
         elif mode == "assign" and model - changed:
             miss = model - changed
             run.broke("correspondence", "%s arg %d: %d cells of the model's write set were never written (first %s)" % (name, k, len(miss), sorted(miss)[:5]), info)
